@@ -524,10 +524,31 @@ func recvNamed(f *ssa.Function) *types.Named {
 func (c *Ctx) checkWideContainer(prefix string, w wideSpec, numbs *types.Var) {
 	named := c.namedType(w.rel, w.typ)
 	shards := c.mustField(w.rel, w.typ, w.shards)
-	calKey := c.mustField(w.rel, w.typ, "calKeyFn")
-	if named == nil || shards == nil || calKey == nil {
+	// the index function: a stored method value of the container's ReMap (field calKeyFn), or — the same thing
+	// decided at call time — the ReMap kept in a field and one of its two index methods chosen by a flag field
+	calKey := c.field(w.rel, w.typ, "calKeyFn")
+	var rehashF *types.Var
+	if named != nil {
+		if st, ok := named.Underlying().(*types.Struct); ok {
+			for i := 0; i < st.NumFields(); i++ {
+				if p, isP := st.Field(i).Type().(*types.Pointer); isP {
+					if n, isN := p.Elem().(*types.Named); isN && n.Obj().Name() == "ReMap" {
+						rehashF = st.Field(i)
+					}
+				}
+			}
+		}
+	}
+	if calKey == nil && rehashF == nil {
+		c.mustField(w.rel, w.typ, "calKeyFn")
+	}
+	if named == nil || shards == nil || (calKey == nil && rehashF == nil) {
 		c.undecided("anchor", w.rel+"."+w.typ, 0, "sharded container type not found")
 		return
+	}
+	flagForm := calKey == nil
+	if flagForm && !c.immutableField(rehashF) {
+		c.violated(prefix+".construction", w.rel+"."+w.typ, rehashF.Pos(), "the ReMap the container routes by is replaced after construction: a key can move to another shard", "")
 	}
 	tname := w.rel + "." + w.typ
 
@@ -544,13 +565,16 @@ func (c *Ctx) checkWideContainer(prefix string, w wideSpec, numbs *types.Var) {
 					continue
 				}
 				n++
-				var slice, fnv *Sym
+				var slice, fnv, rmStored *Sym
 				for _, e := range t.Events {
 					if e.Kind == EvStore && e.Addr.isFieldAddrOf(shards) {
 						slice = e.Val
 					}
-					if e.Kind == EvStore && e.Addr.isFieldAddrOf(calKey) {
+					if calKey != nil && e.Kind == EvStore && e.Addr.isFieldAddrOf(calKey) {
 						fnv = e.Val
+					}
+					if flagForm && e.Kind == EvStore && e.Addr.isFieldAddrOf(rehashF) {
+						rmStored = e.Val
 					}
 				}
 				fail := func(msg string) {
@@ -559,18 +583,28 @@ func (c *Ctx) checkWideContainer(prefix string, w wideSpec, numbs *types.Var) {
 						c.violated(prefix+".construction", tname, ctor.Pos(), msg, c.witness(t, len(t.Events)-1)...)
 					}
 				}
-				if slice == nil || slice.Kind != KAlloc || len(slice.Args) != 2 || fnv == nil || fnv.Kind != KClosure || len(fnv.Args) != 1 {
-					fail("the constructor does not store a freshly made shard slice and a method value of a ReMap as index function")
-					continue
+				var rm *Sym
+				if flagForm {
+					if slice == nil || slice.Kind != KAlloc || len(slice.Args) != 2 || rmStored == nil {
+						fail("the constructor does not store a freshly made shard slice and the ReMap it routes by")
+						continue
+					}
+					rm = rmStored
+					kinds["SimpleIndex"], kinds["XHashIndex"] = true, true // chosen per call by the flag: see index-provenance
+				} else {
+					if slice == nil || slice.Kind != KAlloc || len(slice.Args) != 2 || fnv == nil || fnv.Kind != KClosure || len(fnv.Args) != 1 {
+						fail("the constructor does not store a freshly made shard slice and a method value of a ReMap as index function")
+						continue
+					}
+					rm = fnv.Args[0] // the ReMap bound into the index function
+					bf := fnv.Ref.(*ssa.Function)
+					mname := strings.TrimSuffix(bf.Name(), "$bound")
+					if rn := recvNamedOfBound(bf); rn == nil || rn.Obj().Name() != "ReMap" || (mname != "SimpleIndex" && mname != "XHashIndex") {
+						fail("the index function is not ReMap.SimpleIndex / ReMap.XHashIndex: " + bf.String())
+						continue
+					}
+					kinds[mname] = true
 				}
-				rm := fnv.Args[0] // the ReMap bound into the index function
-				bf := fnv.Ref.(*ssa.Function)
-				mname := strings.TrimSuffix(bf.Name(), "$bound")
-				if rn := recvNamedOfBound(bf); rn == nil || rn.Obj().Name() != "ReMap" || (mname != "SimpleIndex" && mname != "XHashIndex") {
-					fail("the index function is not ReMap.SimpleIndex / ReMap.XHashIndex: " + bf.String())
-					continue
-				}
-				kinds[mname] = true
 				// numbs of that very ReMap
 				nv := fieldValues(t, numbs, rm)
 				if !nv[boundKey(slice.Args[0])] {
@@ -643,6 +677,7 @@ func (c *Ctx) checkWideContainer(prefix string, w wideSpec, numbs *types.Var) {
 
 	// (3)+(4) per single-key method
 	routedType := map[string][]string{} // type of the routed parameter -> methods
+	flagChoice := map[string]string{}   // flag valuation -> index method (flag form)
 	for i := 0; i < named.NumMethods(); i++ {
 		m := named.Method(i)
 		if !m.Exported() {
@@ -696,9 +731,33 @@ func (c *Ctx) checkWideContainer(prefix string, w wideSpec, numbs *types.Var) {
 			var keyArg *Sym
 			for j := 0; j < shardIdx; j++ {
 				e := t.Events[j]
-				if e.Kind == EvCall && e.Val != nil && e.Res != nil && e.Res.Key() == idx.Key() {
+				if calKey != nil && e.Kind == EvCall && e.Val != nil && e.Res != nil && e.Res.Key() == idx.Key() {
 					if _, ok := isInitOfField(e.Val, calKey); ok && len(e.Args) == 1 {
 						keyArg = e.Args[0].strip()
+					}
+				}
+				if flagForm && e.Kind == EvCall && e.Callee != nil && e.Res != nil && e.Res.Key() == idx.Key() && len(e.Args) == 2 {
+					mn := e.Callee.Name()
+					if _, ok := isInitOfField(e.Args[0], rehashF); ok && recvNamedName(e.Callee) == "ReMap" && (mn == "SimpleIndex" || mn == "XHashIndex") {
+						keyArg = e.Args[1].strip()
+						// which of the two is decided by flag fields of the container only, the same way in every method
+						sel := ""
+						for _, f := range t.factsBefore(j) {
+							if fa := f.X; fa.Kind == KInit && fa.Args[0].Kind == KFieldAddr && fa.Args[0].Args[0].Key() == t.Params[0].Key() {
+								if b, isB := f.Y.boolConst(); isB && f.Op == token.EQL {
+									sel += fmt.Sprintf("%s=%v;", fa.Args[0].Field.Name(), b)
+									if !c.immutableField(fa.Args[0].Field) {
+										okP = false
+										c.violated(prefix+".index-provenance", cons, e.Pos, "the routing flag "+fa.Args[0].Field.Name()+" is written after construction: a key can move to another shard", c.witness(t, j)...)
+									}
+								}
+							}
+						}
+						if prev, seen := flagChoice[sel]; seen && prev != mn {
+							okP = false
+							c.violated(prefix+".index-provenance", cons, e.Pos, fmt.Sprintf("under %q this method routes with %s while a sibling routes with %s: operations on one key can hit different shards", sel, mn, prev), c.witness(t, j)...)
+						}
+						flagChoice[sel] = mn
 					}
 				}
 			}
